@@ -1,5 +1,5 @@
 (* Checks.v -- decidable side conditions on the generated files.  Each is
-   discharged by vm_compute in proofs/Gen{Params,Tables,Legacy,Access}.v, so it is re-proved against what
+   discharged by vm_compute in proofs/Gen{Params,EncParams,DecParams,Depth,DepthOdd,Tables,Legacy,Access}.v, so it is re-proved against what
    the Go sources say on every run; the theorems use only these facts about
    the generated constants and tables. *)
 From Coq Require Import List NArith Bool String.
@@ -54,6 +54,23 @@ Definition gk_ok : bool :=
              (wire_codes ++ [0; 1; 5; 7; 9; 16; 17; 127]).
 
 Definition params_ok : bool := codes_ok && fixed_ok && simple_ok && minwire_ok && depth_ok && gk_ok.
+
+(* The groups the theorems actually assume (proofs/ParamsSplit.v relates them
+   to [params_ok]); each has its own vm_compute lemma in proofs/Gen*.v, so a
+   change that falsifies one component takes away only the proofs that use it.
+   - [enc_params_ok]: the encoder and size theorems (type codes, header
+     lengths, typeToSize, the simple/container tables);
+   - [dec_params_ok]: the decoder and skipper theorems (additionally
+     minWireSize, the gopkg skipper's constants, and a depth budget that is not
+     zero -- with a zero budget even the empty input is a depth error);
+   - [depth_ok] (above): the promise that 48 levels are accepted;
+   - [depth_odd_ok]: not part of [params_ok]; maxDepthLimit is odd, which is
+     what lets [roundtrip] state its bound as 2 * vdepth + 1 rather than + 2. *)
+Definition enc_params_ok : bool := codes_ok && fixed_ok && simple_ok.
+Definition depth_pos_ok : bool := 0 <? maxDepthLimit.
+Definition dec_params_ok : bool :=
+  codes_ok && fixed_ok && simple_ok && minwire_ok && gk_ok && depth_pos_ok.
+Definition depth_odd_ok : bool := N.odd maxDepthLimit.
 
 (* ---- dispatch tables ---- *)
 Definition wr_eqb (a b : wr) : bool :=
